@@ -50,7 +50,9 @@ PROPS = {
     "C06": dict(functions=[(DEC, r"BinaryDecoder\..*", ".*"), (R, r"skip_sync", "default")], lemmas=[], bounded="C06", level="other"),
     "C07": dict(functions=[(W, r"(null|deflate|bzip2|xz)_write_block", "default"), (W, r"Writer\.(dump|write|flush|write_block)", ".*")],
                 lemmas=[], bounded="C07", level="other"),
-    "C08": dict(functions=[], lemmas=[], bounded="C08", level="exploration"),
+    # C08: only the promotion pieces are under contract (maybe_promote: the value conversions; match_types on
+    # primitive names: equal or promotable); field matching, defaults, enum defaults, unions: bounded
+    "C08": dict(functions=[(R, r"maybe_promote", "default"), (R, r"match_types", "prims"), (R, r"read_enum", "resolve")], lemmas=[], bounded="C08", level="exploration"),
     # C09: "a function of schema and datum alone": frame obligations of the functions involved in
     # branch selection (no module-level or default-argument state); the selection rule itself is bounded
     "C09": dict(functions=[(W, r"write_union", ".*"), (VP, r"_validate.*", "default")], lemmas=WLEMMAS, provenance=True,
